@@ -292,6 +292,12 @@ def buildDirect (isPrecert : Bool) (cert : Bytes) (chain : List Bytes) : Option 
 def buildIndirect (H : Bytes → Bytes) (isPrecert : Bool) (cert : Bytes) (chain : List Bytes) : Option Bytes :=
   if isPrecert then encPCEH cert (H (derChain chain)) else encCCH (H (derChain chain))
 
+/-- `indirectIssuanceChainService.BuildLogLeaf` as a whole: where the code has the encoding check (`check`; the
+regenerated `Gen.indirectBuildChecksEncoding`) a chain whose in-backend extra data cannot be encoded is refused before
+anything is stored. -/
+def buildIndirectC (check : Bool) (H : Bytes → Bytes) (isPrecert : Bool) (cert : Bytes) (chain : List Bytes) : Option Bytes :=
+  if check && (buildDirect isPrecert cert chain).isNone then none else buildIndirect H isPrecert cert chain
+
 /-- the chain behind a hash field: none for an empty hash, else fetched and DER-decoded -/
 def inflate (get : Bytes → Except Err Bytes) (h : Bytes) : Except Err (List Bytes) :=
   if h.length = 0 then .ok [] else
